@@ -11,8 +11,98 @@ ASSUMPTIONS = list(_base.ASSUMPTIONS)
 T = _base.T
 
 
+def prop_concurrent_notify(cap, ra, rb, s1, s2, hold) -> bool:
+    """Two notifications for the SAME running job are issued from two tasks (a duplicated terminal
+    notification, or FAILED from the step and ROLLBACK from the failure manager) while the scheduler's
+    lock is or is not held by another job's scheduling that is suspended in the connector (`hold`);
+    afterwards everything is driven to completion: the ledger is never negative and ends at zero."""
+    from harness import sched_lib as S
+    from streamflow.core.workflow import Status
+
+    codes = [Status.COMPLETED, Status.FAILED, Status.CANCELLED, Status.ROLLBACK]
+    st1 = st2 = None
+    for i in range(len(codes)):
+        if s1 == i:
+            st1 = codes[i]
+        if s2 == i:
+            st2 = codes[i]
+    if st1 is None or st2 is None:
+        return True
+    w = S.World("one", [(cap, 64, 64)])
+    a, b = "/s/0.0", "/s/0.1"
+    try:
+        with w.loop as loop:
+            for j, r in ((a, ra), (b, rb)):
+                w.reqs[j] = (r, 1, 1)
+                w.binding[j] = ("d",)
+            w.do(a, "S")
+            if w.waiting(a):
+                return True  # a does not fit: nothing to release
+            w.do(a, "R")
+            conn = w.ctx.deployment_manager.get_connector("d")
+            gate = loop.create_future()
+            orig = conn.get_available_locations
+
+            async def held(service=None):
+                if hold:
+                    await gate
+                return await orig(service=service)
+
+            conn.get_available_locations = held
+            w.do(b, "S")  # with `hold`: suspended inside the scheduler's critical section
+            t1 = loop.create_task(w.sched.notify_status(a, st1))
+            t2 = loop.create_task(w.sched.notify_status(a, st2))
+            loop.run_until_quiescent()
+            if not w.ok_accounting():
+                return False
+            if not gate.done():
+                gate.set_result(None)
+            loop.run_until_quiescent()
+            if not (t1.done() and t2.done()):
+                return False
+            t1.result()
+            t2.result()
+            if not (w.ok_accounting() and w.ok_capacity()):
+                return False
+            # drive everything to completion
+            for j in (a, b):
+                if w.waiting(j):
+                    continue
+                if w.status(j) in (S.FIREABLE, S.RUNNING):
+                    w.do(j, "R")
+                    w.do(j, "C")
+                    if not w.ok_accounting():
+                        return False
+            if w.waiting(b):
+                return w.ok_accounting()
+            return w.ok_accounting(final=True)
+    finally:
+        w.close()
+
+
 def specs(tier: str):
-    return _base.gen(PROP, ORACLE, tier)
+    from lib.runner import Spec, mk_source
+
+    out = _base.gen(PROP, ORACLE, tier)
+    out.append(
+        Spec(
+            name="concurrent_notify",
+            group="C11: notifications of one job issued from two tasks, with the scheduler lock held or free",
+            source=mk_source(
+                "from harness.C11 import *",
+                "cap: int, ra: int, rb: int, s1: int, s2: int, hold: bool",
+                ["0 <= cap <= 64", "0 <= ra <= 64", "0 <= rb <= 64", "0 <= s1 <= 3", "0 <= s2 <= 3"],
+                "prop_concurrent_notify(cap, ra, rb, s1, s2, hold)",
+            ),
+            cond=900 if tier == "quick" else 3000,
+            path=90,
+            bound="one hardware location (cores symbolic 0..64), job a RUNNING (cores 0..64), job b being scheduled (suspended inside the scheduler's critical section in connector.get_available_locations, or not: symbolic); "
+            "two concurrent notify_status(a, .) tasks with statuses from COMPLETED/FAILED/CANCELLED/ROLLBACK (symbolic pair; a RUNNING notification after a terminal one is not a caller's lifecycle); then everything driven to completion",
+            symbolic="3 amounts, 2 status codes, 1 bool",
+            targets=T,
+        )
+    )
+    return out
 
 
 EXPLANATION = (
@@ -20,5 +110,7 @@ EXPLANATION = (
     "symbolic exact amounts). Oracle: after every operation the scheduler's own ledger (hardware_locations) has no negative "
     "cores/memory/storage and the C10 capacity bound holds; every history is then driven to completion (FIREABLE->RUNNING->COMPLETED "
     "for every allocated job, duplicated and out-of-order terminal notifications are part of the symbolic operations) and the ledger must show "
-    "exactly 0 cores, 0 memory and, as storage, exactly the sum of the measured usages returned by the get_storage_usages stub."
+    "exactly 0 cores, 0 memory and, as storage, exactly the sum of the measured usages returned by the get_storage_usages stub. "
+    "An extra obligation issues two notifications of one running job from two concurrent tasks while another job's scheduling holds (or does not hold) "
+    "the scheduler lock, suspended in the connector: the reservation is released exactly once."
 )
